@@ -336,7 +336,10 @@ class Evaluator:
         f = self.w.fac(d)
         m = v._magnitude
         if f is None or not (exact(m) or is_nan(m) or isinstance(m, (float, Decimal))):
-            r = v.to_root_units()._magnitude
+            try:
+                r = v.to_root_units()._magnitude
+            except (OverflowError, ArithmeticError, ValueError) as e:     # fractional unit exponents: factor ** exponent in floats
+                raise Skip(f"root units not computable in floats: {type(e).__name__}")
             return ("Q", r, dim)
         if isinstance(m, Decimal):
             return ("Q", m * Decimal(f.numerator) / Decimal(f.denominator), dim)
@@ -421,9 +424,39 @@ class Evaluator:
                     return True
         return False
 
+    def cancels(self, t, ls, rs, outs):
+        """an inexact (float / Decimal) + or - whose result is tiny relative to its operands: rounding noise of the
+        operands' scale dominates the result, here and in everything computed from it"""
+        if not (t[0] == "bin" and t[1] in ("add", "sub")):
+            return False
+        if not (self.inexact_operand(ls) or self.inexact_operand(rs) or self.inexact_operand(outs)):
+            return False
+
+        def mag(o):
+            if o[0] != "ok":
+                return None
+            p = self.phys(o[1])
+            try:
+                return abs(F(p[1]))
+            except (TypeError, ValueError, OverflowError):
+                return None
+        for lo, ro, oo in zip(ls, rs, outs):
+            ml, mr, mo = mag(lo), mag(ro), mag(oo)
+            if None in (ml, mr, mo):
+                continue
+            if mo * 10 ** 6 < max(ml, mr):
+                return True
+        return False
+
     def compare(self, t, ls, rs, outs, tol):
         if self.div is not None:
             return
+        try:
+            if self.cancels(t, ls, rs, outs):
+                self.div = ("cancellation", "")
+                return
+        except Skip:
+            pass
         for k in range(1, len(outs)):
             if not self.same(outs[0], outs[k], tol):
                 if t[0] == "bin" and t[1] in ("floordiv", "mod", "divmodq", "divmodr") and (self.inexact_operand(ls) or self.inexact_operand(rs)):
@@ -476,7 +509,7 @@ def run(ck):
         "units whose root factor is a float in the Fraction registry (planck_*, franklin, alpha-dependent: C02) are outside the exact domain and not drawn",
         "offset / logarithmic units are C06's; here they appear only in the F14 probe",
         "non-integer rational exponents: the unit part is compared exactly (KPowUnits), the magnitude part is a float test (rel. 1e-9)",
-        "float registry: rel. tolerance 1e-9, no // % divmod (discontinuous), cancellation-prone nodes skipped; Decimal registry: rel. 1e-20",
+        "float registry: rel. tolerance 1e-9, no // % divmod (discontinuous); Decimal registry: rel. 1e-20; a tree is dropped at the first inexact + / - node whose result is below 1e-6 of its operands (cancellation: the comparison would be relative to a near-zero result)",
         "ndarray magnitudes are compared element by element against the scalar model; arrays are uniform w.r.t. the zero test",
         "reflected forms with a quantity on the left are explicit dunder calls; __rtruediv__/__rpow__ only with a bare left operand (the only operator path)",
     ]
@@ -758,8 +791,19 @@ def run(ck):
                     return False
                 m = o[1]._magnitude if is_q(o[1]) else o[1]
                 return not exact(m) and not is_nan(m)
+            def fractional(o):
+                if o is None or o[0] != "ok":
+                    return False
+                try:
+                    m = o[1].to_root_units()._magnitude if is_q(o[1]) else o[1]
+                    return not is_nan(m) and F(m).denominator != 1
+                except Exception:       # noqa: BLE001
+                    return False
             if op == "abs" and negs:
                 key = "cov:abs:negative-scale"
+            elif op == "pow" and negs and rs and fractional(rs[0]):
+                # (unit with a negative scale) ** non-integer: (g_e**2) ** (3/2) is g_e**3 for pint, |g_e|**3 for the reals
+                key = "cov:pow-fractional:negative-scale"
             elif tag == ":int-exact" and (inexact_result(outs[0]) or inexact_result(outs[k])):
                 # int / Fraction operands went in, a float came out (in one way of writing the operands at least)
                 key = f"exact-arithmetic:{op}:{form}:{kinds}"
@@ -809,8 +853,8 @@ def run(ck):
             continue
         for key, desc in ev.frames:
             fail(key, desc, {"kind": "tree", "tree": jsonable_tree(t), "variants": [[jsonable_tree(("leaf", s))[1] for s in v.values()] for v in variants]})
-        if ev.div is not None and ev.div[0] == "float-discontinuity":
-            ck.count("tree:float-discontinuity (skipped)")
+        if ev.div is not None and ev.div[0] in ("float-discontinuity", "cancellation"):
+            ck.count(f"tree:{ev.div[0]} (skipped)")
             continue
         changed = any(a != c for a, c in zip(va.values(), vc.values()))
         ck.case(key=("tree", tree_key(t)), nontrivial=changed,
@@ -1240,7 +1284,12 @@ def run(ck):
                     if o1 != o2:
                         fail(f"repeat:{name}:ndarray-cmp", f"evaluating {name} ({order}) twice on the same objects gives {o1} then {o2} "
                              f"({flavour} array {[str(x) for x in am]} {dict(d)} vs {kind} {rp['b']})", rp)
-                    # element by element against the scalar comparison on fresh objects
+                    # element by element against the scalar comparison on fresh objects.  pint's zero / NaN rule for bare
+                    # operands looks at the operand AS A WHOLE (zero_or_nan(other, all)): a partly-zero bare array next to a
+                    # dimensioned quantity is just "a bare number", so element-wise agreement is not demanded there
+                    if kind == "array" and W.dim(d) and any(x == 0 for x in bl) and not all(x == 0 for x in bl):
+                        ck.count("ndarray-cmp:elementwise-not-applicable (partly-zero bare array, dimensioned quantity)")
+                        continue
                     exp = []
                     for j in range(n):
                         Aj, Bj = Wx.Q(scal(am[j]), regk.mkuc(Wx.ureg, d)), elemB(j)
@@ -1521,6 +1570,9 @@ def run(ck):
                 continue
             for key, desc in ev.frames:
                 fail(key + tag, desc, {"kind": "tree", "registry": tag, "tree": jsonable_tree(t)})
+            if ev.div is not None and ev.div[0] in ("float-discontinuity", "cancellation"):
+                ck.count(f"tree{tag}:skipped-{ev.div[0]} at an inner node")
+                continue
             ck.case(key=("tree" + tag, tree_key(t)))
             ck.count("tree" + tag)
 
